@@ -285,6 +285,10 @@ pub enum SigMut {
     CountRaise { poly: u8, by: u8 },
     /// set one index byte to 0 / 255
     IndexEdge { nth: u8, high: bool },
+    /// index bytes 0, 1, 2, ... strictly increasing through the whole index area and on through the count
+    /// bytes (first count byte = `bound` > omega): a decoder that trusts a count byte before checking it
+    /// against omega walks its index past the end of the section
+    HintRunaway { bound: u8 },
     RandomZ(u64),
     RandomHint(u64),
     RandomAll(u64),
@@ -306,6 +310,7 @@ pub fn sig_mut() -> impl Strategy<Value = SigMut> {
         2 => (1u8..4).prop_map(|by| SigMut::LastCountShort { by }),
         2 => (any::<u8>(), 1u8..4).prop_map(|(poly, by)| SigMut::CountRaise { poly, by }),
         1 => (any::<u8>(), any::<bool>()).prop_map(|(nth, high)| SigMut::IndexEdge { nth, high }),
+        1 => any::<u8>().prop_map(|bound| SigMut::HintRunaway { bound }),
         1 => any::<u64>().prop_map(SigMut::RandomZ),
         1 => any::<u64>().prop_map(SigMut::RandomHint),
         1 => any::<u64>().prop_map(SigMut::RandomAll),
@@ -329,6 +334,7 @@ impl SigMut {
             SigMut::LastCountShort { .. } => "LastCountShort",
             SigMut::CountRaise { .. } => "CountRaise",
             SigMut::IndexEdge { .. } => "IndexEdge",
+            SigMut::HintRunaway { .. } => "HintRunaway",
             SigMut::RandomZ(_) => "RandomZ",
             SigMut::RandomHint(_) => "RandomHint",
             SigMut::RandomAll(_) => "RandomAll",
@@ -446,6 +452,17 @@ pub fn apply_mut(p: &Params, sig: &[u8], m: &SigMut) -> Vec<u8> {
             if n >= 1 {
                 let i = *nth as usize % n;
                 s[hoff + i] = if *high { 255 } else { 0 };
+            }
+        }
+        SigMut::HintRunaway { bound } => {
+            for i in 0..om {
+                s[hoff + i] = i as u8;
+            }
+            // first count byte: a value above omega and above the last index byte; the remaining count
+            // bytes keep increasing so that a runaway index keeps passing the ordering test
+            let b = (om as u32 + 1 + (u32::from(*bound) * (250 - om as u32)) / 256) as u8;
+            for j in 0..p.k {
+                s[hoff + om + j] = b.saturating_add(j as u8);
             }
         }
         SigMut::RandomZ(seed) => {
